@@ -11,6 +11,5 @@ CONSTANTS
   AllowReopen = TRUE
   AllowPrepare = TRUE
   StrictTarget = TRUE
-INVARIANT INoDup
 POSTCONDITION Accepted
 CHECK_DEADLOCK FALSE
